@@ -57,6 +57,64 @@ def directed_cases(tier, seed):
     return out
 
 
+def dtor_runs(res, tier, seed):
+    """implicit barriers: containers destroyed right after issuing asynchronous operations (harness/dtor.cpp)"""
+    import re
+    rng = T.Rng(seed * 131 + 17)
+    variants = [(False, "")]
+    if tier == "thorough":
+        variants.append((True, "address"))
+    for sanitize, san in variants:
+        binary, err = C.build_harness("dtor", sanitize=sanitize, san=san or "address,undefined")
+        if binary is None:
+            res.corr_failures.append({"relation": "dtor harness builds against /repo", "what": err[-600:], "case": None})
+            return
+        jobs = []
+        for (N, P) in [(1, 2), (1, 4), (2, 2), (2, 3)]:
+            for routing in T.ROUTINGS:
+                for kb in (0, None):
+                    for rep in range(1 if tier == "quick" else 4):
+                        jobs.append((N, P, routing, kb, rng.choice(T.POLICIES), rng.below(1 << 30), 1 + rng.below(40)))
+
+        def one(j):
+            N, P, routing, kb, pol, ss, k = j
+            env = {"YGM_COMM_ROUTING": routing}
+            if kb is not None:
+                env["YGM_COMM_BUFFER_SIZE_KB"] = kb
+            return j, C.run_sim(binary, [ss % 1000, k], nodes=N, ppn=P, env=env, sim_seed=ss, policy=pol, want_log=False, timeout=240)
+
+        for j, sr in C.pmap(one, jobs):
+            N, P, routing, kb, pol, ss, k = j
+            res.evaluations += 1
+            case = {"harness": "dtor", "layout": [N, P], "routing": routing, "buf_kb": kb, "policy": pol, "sim_seed": ss, "ops": k, "sanitize": san}
+            if sr.verdict != "ok":
+                res.oracle_failures.append({"what": f"container-destructor scenario did not complete: {sr.verdict} {sr.stderr[-300:]}",
+                                            "signature": "dtor " + T.verdict_signature(sr), "case": case})
+                continue
+            tot = {}
+            bad = None
+            for r in range(N * P):
+                for line in sr.outs.get(r, []):
+                    m = re.match(r"(\w+) issued=(\d+) at_dtor=(\d+) after_barrier=(\d+)", line)
+                    if not m:
+                        continue
+                    name, issued, at, after = m.group(1), int(m.group(2)), int(m.group(3)), int(m.group(4))
+                    t = tot.setdefault(name, [0, 0])
+                    t[0] += issued
+                    t[1] += at
+                    if at != after:
+                        bad = f"{name}: rank {r} had executed {at} callbacks when its destructor returned, {after} after the next barrier"
+            for name, (issued, at) in tot.items():
+                if issued != at and not bad:
+                    bad = f"{name}: {issued} operations issued before destruction but {at} executed when the destructors had returned"
+            if bad:
+                res.oracle_failures.append({"what": "work issued before a container's destruction ran after its destructor returned: " + bad,
+                                            "signature": "dtor-barrier-incomplete", "case": case})
+            else:
+                res.distinct.add(("dtor", N, P, routing, kb, pol))
+                res.count("dtor_runs")
+
+
 def extra(local, sc, cfg, sr, hev, wire, out):
     from props import acceptors
     acceptors.barrier(local, sc, cfg, hev, wire)
@@ -72,11 +130,24 @@ def run(tier, seed, model_ok=True):
         res.corr_failures.append({"relation": "harness builds against /repo", "what": err[-800:], "case": None})
         return res
     K.run_cases(res, binary, cases(tier, seed) + directed_cases(tier, seed), WANT, extra=extra if model_ok else None)
-    if res.oracle_failures:
+    dtor_runs(res, tier, seed)
+    if res.oracle_failures and "scenario" in (res.oracle_failures[0].get("case") or {}):
         res.oracle_failures[0] = K.shrink(binary, res.oracle_failures[0], WANT)
     return res
 
 
 def replay(data):
+    case = data.get("case") or {}
+    if case.get("harness") == "dtor":
+        binary, err = C.build_harness("dtor", sanitize=bool(case.get("sanitize")), san=case.get("sanitize") or "address,undefined")
+        env = {"YGM_COMM_ROUTING": case["routing"]}
+        if case["buf_kb"] is not None:
+            env["YGM_COMM_BUFFER_SIZE_KB"] = case["buf_kb"]
+        sr = C.run_sim(binary, [case["sim_seed"] % 1000, case["ops"]], nodes=case["layout"][0], ppn=case["layout"][1], env=env,
+                       sim_seed=case["sim_seed"], policy=case["policy"], want_log=False)
+        print(sr.verdict, sr.stderr[-300:])
+        for r in sorted(sr.outs):
+            print(r, sr.outs[r])
+        return False
     binary, err = C.build_harness("traffic")
     return K.replay_case(binary, data, WANT, extra)
